@@ -230,7 +230,47 @@ def bool_only(T, t1, t2):
     return same_meaning(T, t2, t1, bool_as_unknown=True)[0]
 
 
-def classify(T, t1, t2):
+def field_fuses(T, n):
+    tk = lex_tokens(n.name + ":" + n.expr.__str__(head_tail=True))
+    return not tk or tk[0][0] != "TERM" or tk[0][1] != n.name
+
+
+def operand_fuses(op, c):
+    s = c.__str__(head_tail=True)
+    return lex_tokens(s + op) != lex_tokens(s) + [({"AND": "AND_OP", "OR": "OR_OP"}[op], op)]
+
+
+def repaired(T, t1):
+    """the transformed tree with the known defects repaired by hand: parentheses around an OR operation that is a
+    direct operand of an AND operation (F10), a blank after an operand that would fuse with the operator word
+    (F10b), a blank after the colon of a field that would fuse with its value (F1).  Meaning-preserving edits."""
+    import copy
+    t = copy.deepcopy(t1)
+
+    def fix(n):
+        for c in n.children:
+            fix(c)
+        if isinstance(n, T.SearchField) and field_fuses(T, n):
+            n.expr.head = " " + n.expr.head
+        if isinstance(n, T.AndOperation) and any(isinstance(c, T.OrOperation) for c in n.children):
+            n.children = [T.Group(c) if isinstance(c, T.OrOperation) else c for c in n.children]
+        if isinstance(n, (T.AndOperation, T.OrOperation)):
+            for c in n.children[:-1]:
+                if operand_fuses(n.op, c):
+                    c.tail = c.tail + " "
+    fix(t)
+    return t
+
+
+def classify(T, t1, t2, parse):
+    """the finding class of a failing (query, transformer), or None.  A class is returned only if the failure is
+    ENTIRELY explained by the known classes: after repairing them by hand (see `repaired`; BoolOperations read as
+    implicit operations, F10c) the printed tree re-parses to a tree with the same meaning.  Anything else that
+    goes wrong on the same input therefore still surfaces as a violation."""
+    fix = repaired(T, t1)
+    kind, t2f = PG.impl_parse(fix.__str__(head_tail=True), parse)
+    if kind != "ok" or t2f is None or not same_meaning(T, t2f, fix, bool_as_unknown=True)[0]:
+        return None
     if fused_field(T, t1):
         return "F1"
     if operator_fuses(T, t1):
@@ -284,8 +324,8 @@ def correspond(model_ok, res):
             todo = shipped + [r.choice(extra)]
         else:
             todo = shipped[:2] + r.sample(shipped[2:], 4) + [r.choice(extra)]
-        # the model side (vm_compute of the composed models) runs on a sample in the quick tier
-        in_model = set(range(len(todo))) if (not quick or si < len(CORPUS)) else set(r.sample(range(len(todo)), 3))
+        # the model side (vm_compute of the composed models) runs on every case too
+        in_model = set(range(len(todo)))
         ti = -1
         for name, opts, fn, gterm, is_shipped in todo:
             ti += 1
@@ -304,8 +344,8 @@ def correspond(model_ok, res):
                 payload["printed"] = p
                 k2, t2 = PG.impl_parse(p, parser.parse)
                 if k2 != "ok" or t2 is None:
-                    t2, verdict = None, "VRejected"
                     payload["reparse_error"] = "%s" % (parsed_or_msg(k2, t2),)
+                    t2, verdict = None, "VRejected"
                 else:
                     same, n_at, exhaustive, wit = same_meaning(T, t2, t1)
                     verdict = "VSame" if same else "VDiffer"
@@ -324,7 +364,7 @@ def correspond(model_ok, res):
                 dist["transformer"][key] = dist["transformer"].get(key, 0) + 1
                 dist["verdict"][verdict] = dist["verdict"].get(verdict, 0) + 1
                 if verdict != "VSame":      # the property oracle, on the implementation
-                    fid = classify(T, t1, t2) if t1 is not None else None
+                    fid = classify(T, t1, t2, parser.parse) if t1 is not None else None
                     dist["finding_class"][str(fid)] = dist["finding_class"].get(str(fid), 0) + 1
                     res.failures.append((dict(payload, why="parse(str(T(tree))) does not mean what T(tree) means"
                                               if verdict == "VDiffer" else
@@ -351,9 +391,8 @@ def correspond(model_ok, res):
                 "explicit / implicit operators and open ranges) and a fixed corpus x the shipped transformers (copy, "
                 "auto_head_tail, resolver x 4 targets, open ranges x merge, resolve-then-open-range x 8), plus "
                 "add_head in {'', newline} for the model only. The Python oracle runs on every (query, transformer) "
-                "(input_distribution.oracle_evaluations); the composed Coq models are evaluated on all of them in the "
-                "thorough tier; in the quick tier on all of them for the fixed corpus and on 3 of the 7 transformers drawn "
-                "for each generated query (= the number of cases); non-trivial = distinct "
+                "and so do the composed Coq models (vm_compute), verdicts compared when the truth table is exhaustive "
+                "(<= 10 atoms); non-trivial = distinct "
                 "(query, shipped transformer) whose parsed tree has more than one node")
     res.samples = payloads[150:156] or payloads[:6]
     res.distribution = dist
@@ -409,7 +448,7 @@ SPEC = {
                  "C11_open_range_refuted", "C11_resolve_open_refuted", "C11_every_transformer_refuted",
                  "C11_meaning_respects_equality", "C11_meaning_eqb_correct", "C11_verdict_is_statement",
                  "C11_parsed_wellformed",
-                 "C11_copy_partial", "C11_copy_total",
+                 "C11_copy_partial", "C11_copy_total", "C11_resolve_no_unknown_partial",
                  "C11_equal_tree_modulo_lexing", "C11_copy_modulo_lexing", "C11_aht_modulo_lexing", "C11_aht_total"],
     "correspond": correspond,
     "statement": "for every parsed query t and shipped transformer T (copy, auto_head_tail, resolver x 4 targets, open "
@@ -429,7 +468,9 @@ SPEC = {
                   "(C01's guard) the printed copy IS the query and re-parses to the very same tree; "
                   "(5) C11_copy/aht_modulo_lexing: using the any-table layout independence of the LR driver (C03a), copy "
                   "and auto_head_tail satisfy the statement whenever their printed result lexes to the query's tokens; "
-                  "auto_head_tail never raises on a parsed query. NOT proved: the positive statement for the resolver and "
+                  "auto_head_tail never raises on a parsed query; (6) C11_resolve_no_unknown_partial: on a query without "
+                  "implicit operation the resolver (every target, Lucene mode, any add_head) is the default copy, hence "
+                  "satisfies the statement under the copy's guard. NOT proved: the positive statement for the resolver and "
                   "the open-range transformer (and the lexing hypothesis for auto_head_tail): these are validated on every "
                   "run by the correspondence, which evaluates the executable statement both on the real code "
                   "(parser.parse(str(T(tree))), truth tables over <= 10 atoms, both defaults) and on the composed Coq models "
